@@ -101,9 +101,9 @@ Proof. exact stream12_record_sizes. Qed.
 Print Assumptions C08_stream12_record_sizes.
 
 (* one sequence number per record, sender and receiver never out of step *)
-Theorem C08_seq_lockstep : forall clamp cap, (forall c, clamp = Some c -> 0 < c) ->
+Theorem C08_seq_lockstep : forall clamp cap allow_empty, (forall c, clamp = Some c -> 0 < c) ->
   forall ops s s' reads recs,
-  run clamp cap ops s = Ok (s', reads, recs) -> lockstep s -> lockstep s'.
+  run clamp cap allow_empty ops s = Ok (s', reads, recs) -> lockstep s -> lockstep s'.
 Proof. exact seq_lockstep. Qed.
 Print Assumptions C08_seq_lockstep.
 
@@ -115,6 +115,20 @@ Proof. exact stream13_writes_total. Qed.
 Print Assumptions C08_stream13_writes_total.
 
 Theorem C08_stream13_record_sizes : forall ops s s' reads recs,
-  run13 ops s = Ok (s', reads, recs) -> Forall (Forall (fun n => 0 < n <= max_plain)) recs.
+  run13 ops s = Ok (s', reads, recs) -> Forall (Forall (fun n => n <= max_plain)) recs.
 Proof. exact stream13_record_sizes. Qed.
 Print Assumptions C08_stream13_record_sizes.
+
+(* an empty application record (tls13_send with datalen 0) is a record like any other: one
+   sequence number on each side, zero bytes delivered; scripts may contain it anywhere (the
+   fidelity and lockstep theorems above quantify over SendEmpty too).  tls_send refuses datalen 0. *)
+Theorem C08_stream13_empty_record : forall s s1 n s2 d outlen,
+  chan s = [] -> rbuf s = [] ->
+  send1 (Some max_plain) None true s [] = Ok (s1, n) -> recv1 s1 outlen = Ok (s2, d) ->
+  n = 0 /\ d = [] /\ sseq s2 = S (sseq s) /\ rseq s2 = S (rseq s) /\ chan s2 = [] /\ rbuf s2 = [].
+Proof. exact stream13_empty_record. Qed.
+Print Assumptions C08_stream13_empty_record.
+
+Theorem C08_stream12_empty_send_refused : forall s, send1 (Some max_plain) None false s [] = Err.
+Proof. exact stream12_empty_send_refused. Qed.
+Print Assumptions C08_stream12_empty_send_refused.
